@@ -142,6 +142,31 @@ def templates():
                                                    ("block", [("assign", "add", V("n"), I(1))])),
                                                   ("return", ("tuple", [V("u"), ("pre", "deref", V("n"))]))]),
                   ("call", V("h"), [])])
+    # a type-testing binder (`if x: T = e`, `while x: T = e`, match type arm) binds its name ONLY in the matched body: in the
+    # else branch / other arms / afterwards the name is the enclosing declaration, whose value DIFFERS from the tested one
+    for outer, tested, ty in ((I(7), I(99), STR), (I(7), ("s", "other"), INT), (("s", "mine"), I(99), STR)):
+        oty = INT if outer[0] == "i" else STR
+        elsex = ("block", [V("x")])
+        clos = ("block", [("call", ("fn", [], oty, [("return", V("x"))]), [])])
+        for eb in (elsex, clos):
+            # parameters of a function
+            T.append([("fndecl", "h", [("x", oty), ("y", ("multi", (INT, STR)))], ("any",),
+                       [("set", "r", ("ifset", "x", ty, V("y"), ("block", [V("x")]), eb)), ("return", ("tuple", [V("r"), V("x")]))]),
+                      ("call", V("h"), [outer, tested])])
+            # run-time locals at top level
+            T.append([IDF, IDU, ("set", "x", ("call", V("idf" if outer[0] == "i" else "idu"), [outer])), ("set", "y", ("call", V("idu"), [tested])),
+                      ("set", "r", ("ifset", "x", ty, V("y"), ("block", [V("x")]), eb)), ("tuple", [V("r"), V("x")])])
+        # else-if chain: the last else sees the enclosing name
+        T.append([("fndecl", "h", [("x", oty), ("y", ("multi", (INT, STR)))], ("any",),
+                   [("set", "r", ("ifset", "x", ty, V("y"), ("block", [V("x")]),
+                                  ("ifset", "x", BOOL, V("y"), ("block", [V("x")]), ("block", [V("x")])))),
+                    ("return", ("tuple", [V("r"), V("x")]))]),
+                  ("call", V("h"), [outer, tested])])
+        # match: a type arm that does not match, then an `other` arm reading the enclosing name
+        T.append([("fndecl", "h", [("x", oty), ("y", ("multi", (INT, STR)))], ("any",),
+                   [("set", "r", ("match", V("y"), [("ty", "x", ty, ("block", [V("x")])), ("other", ("block", [V("x")]))])),
+                    ("return", ("tuple", [V("r"), V("x")]))]),
+                  ("call", V("h"), [outer, tested])])
     # capture by value: redeclare after creating the closure; captured cell stays shared
     T.append([IDF, ("set", "x", ("call", V("idf"), [I(1)])), ("set", "c", ("mut", INT, I(10))),
               ("fndecl", "g", [], INT, [("return", ("bin", "add", V("x"), ("pre", "deref", V("c"))))]),
